@@ -18,6 +18,8 @@ def configs(ctx):
     alphas = [0.3, 1.0, 2.5]
     for npts in (2, 3, 4) if ctx.quick else (2, 3, 4, 5):
         for a in ([1.0, ctx.rng.choice([0.3, 2.5])] if ctx.quick else alphas):
+            if npts == 5 and a != alphas[ctx.seed % 3]:
+                continue  # 2992 states, 8.4e6 paths, 10-25 min per data-point matrix: one concentration value per run
             out.append(dict(move="dp", npts=npts, outliers=False, data_op=0.0, alpha=a))
             if npts <= (3 if ctx.quick else 4):
                 out.append(dict(move="dp", npts=npts, outliers=True, data_op=0.2, alpha=a))
